@@ -913,6 +913,13 @@ def family_cases():
     cases.append(("row[include_if undefined]", "error", wb(one("{{nope}}", "x"), icf, data), None))
     cases.append(("row[include_if true, undefined text]", "error", wb(one("TRUE", "x {{nope}}"), icf, data), None))
     cases.append(("row[include_if false, defined text]", "ok", wb(one("FALSE", "x {{word}}"), icf, data), ["first", "last"]))
+    # an include_if template that renders to NOTHING is a blank include_if cell: the row is part of the flow, so its
+    # other cells are evaluated like any row's
+    datab = [dict(r, blank="") for r in data]
+    hb = ("ID", "word", "amount", "blank")
+    for inc in ("{{blank}}", "{{ blank }}", "{% if amount == 'never' %}FALSE{% endif %}"):
+        cases.append((f"row[include_if {inc} renders empty, undefined text]", "error", wb(one(inc, "x {{nope}}"), icf, datab, data_headers=hb), None))
+        cases.append((f"row[include_if {inc} renders empty, defined text]", "ok", wb(one(inc, "x {{word}}"), icf, datab, data_headers=hb), ["first", "x alpha", "last"]))
     # insert_as_block: arguments and data row of the inserted template
     tmpl = [{"row_id": "t1", "type": "send_message", "from": "start", "message_text": "T {{word}} {{extra}}"}]
     def ins(tmpl_rows, args="E1", tdef_args="extra;;dflt|"):
